@@ -3,6 +3,8 @@ package main
 import (
 	"encoding/hex"
 	"fmt"
+	"net/http"
+	"net/http/httptest"
 	"net/url"
 	"sort"
 	"strings"
@@ -60,8 +62,13 @@ func canonModel(ans string) string {
 	return ans[:i] + "|" + canonValues(m)
 }
 
+// goFields: the fields PublishHandler reads, taken from the real `http.Request.ParseForm` of a POST with this
+// body (net/http's parsePostForm: the form-size limit, then url.ParseQuery) — the call PublishHandler makes.
 func goFields(body string) string {
-	form, err := url.ParseQuery(body)
+	req := httptest.NewRequest(http.MethodPost, "/.well-known/mercure", strings.NewReader(body))
+	req.Header.Set("Content-Type", "application/x-www-form-urlencoded")
+	err := req.ParseForm()
+	form := req.PostForm
 	for _, k := range []string{"topic", "retry", "data", "id", "type"} {
 		vs := form[k]
 		if k != "topic" && len(vs) > 1 {
@@ -109,6 +116,16 @@ func runForm(c *h.Ctx, r *h.Report) {
 	}
 	for _, b := range []string{"", "&", "=", "==", "a", "a=", "=b", "a=b&a=c&b", "topic=x;y", "a=%", "a=%4", "a=%zz&b=1", "%=1", "a=1&&b=2&", "a=b=c", "+=+", "a=%00", "topic=%C3%A9&topic=%c3", "private"} {
 		runFormCase(c, r, b)
+	}
+	// bodies around net/http's form-size limit (10 MiB) and other large sizes: parsed as a whole or not at all
+	for _, sz := range []int{1 << 20, 1<<20 + 1, 3 << 19, 10<<20 - 1, 10 << 20, 10<<20 + 1} {
+		pre, post := "topic=t&data=", "&private=on&id=last&type=ty"
+		body := pre + padString(sz-len(pre)-len(post)) + post
+		if mf, gf := c.Driver.Ask1(h.Line("form.fields", hex.EncodeToString([]byte(body)))), goFields(body); mf != gf {
+			r.Disagree(h.Disagreement{Class: "C12.form-fields", Case: map[string]any{"large_body_bytes": len(body), "shape": pre + "<pad>" + post}, Model: short(mf), Impl: short(gf)})
+		}
+		r.Evaluations++
+		r.Count(fmt.Sprintf("large-body:%d", len(body)))
 	}
 	n := c.Scale(6000, 100000)
 	for i := 0; i < n; i++ {
@@ -158,4 +175,25 @@ func runForm(c *h.Ctx, r *h.Report) {
 			r.Sample(formCase{hex.EncodeToString([]byte(body))})
 		}
 	}
+}
+
+// padString: n bytes of unreserved characters (no escaping needed), not constant so that a cut is visible.
+func padString(n int) string {
+	if n <= 0 {
+		return ""
+	}
+	b := make([]byte, n)
+	for i := range b {
+		b[i] = "abcdefghijklmnopqrstuvwxyz0123456789"[i%36]
+	}
+
+	return string(b)
+}
+
+func short(s string) string {
+	if len(s) > 300 {
+		return fmt.Sprintf("%s…(%d bytes)…%s", s[:120], len(s), s[len(s)-120:])
+	}
+
+	return s
 }
